@@ -258,7 +258,7 @@ func c03Run(x *engine.X) {
 			break
 		}
 		row := schema.Deconstruct(nil, r)
-		if rt.ExplicitSchema {
+		if rt.ExplicitSchema || rt.NoReassembly {
 			// what an interface-typed field is re-assembled as is not documented
 			if s := streamOf([]parquet.Row{row})[0]; s != ref[i] {
 				x.Failf("stream-mismatch", fmt.Sprintf("type=%s;path=Deconstruct;col=%s", rt.Name, firstDiffColumn(ref[i], s)),
@@ -317,12 +317,12 @@ func init() {
 	Register(&engine.Prop{
 		ID:    "C03",
 		Level: "exploration",
-		Rule: "row type (as C01, plus 2 types with interface-typed fields used with an explicit schema: any leaves, groups given as map[string]any or structs, []any lists, below slices, pointers and two groups deep; hand-built alphabets, one factor at a time around an all-absent and an all-present row) x row sequence (as C01) x batch split; 10 ingestion paths (incl. typed Write and WriteRows alternating on one GenericWriter, and a GenericBuffer whose pages and rows are read between batches) compared value-by-value (column, bytes, repetition, definition level) against the reflection path, plus Reconstruct(Deconstruct(v)); " +
+		Rule: "row type (as C01, plus C03-only types - times and durations that are not multiples of their column's unit, before and after the epoch; optional fixed-size arrays with a single non-zero byte at every position; 2 types with interface-typed fields used with an explicit schema: any leaves, groups given as map[string]any or structs, []any lists, below slices, pointers and two groups deep; hand-built alphabets, one factor at a time around an all-absent and an all-present row) x row sequence (as C01) x batch split; 10 ingestion paths (incl. typed Write and WriteRows alternating on one GenericWriter, and a GenericBuffer whose pages and rows are read between batches) compared value-by-value (column, bytes, repetition, definition level) against the reflection path, plus Reconstruct(Deconstruct(v)); " +
 			"non-trivial = >=2 rows; distinct by case description",
 		Assumptions: []string{
 			"the reflection path Writer.Write(any) is the comparison reference: a disagreement is a violation of 'every path stores exactly that sequence' whichever side is wrong",
 			"map-typed rows: only row counts and re-assembly are compared (entry order is unspecified)",
-			"types with interface-typed fields: streams are compared on every path; re-assembly is not (what such a field is re-assembled as is not part of the documented mapping)",
+			"types with interface-typed fields and sub-unit times: streams are compared on every path; re-assembly is not (what an interface-typed field is re-assembled as is not part of the documented mapping; a time stored at the precision of its column does not read back equal)",
 		},
 		Bound: func(string) int { return 0 },
 		Run:   c03Run,
